@@ -11,7 +11,6 @@ use fixed_buffer::FixedBuf;
 use serde_json::json;
 use servlin::internal::{read_http_head, read_http_request, HttpError};
 use sim_core::with;
-use std::io::ErrorKind;
 use std::net::{IpAddr, Ipv4Addr, SocketAddr};
 
 const TCHARS: &[u8] = b"!#$%&'*+-.^_`|~0123456789abcdefghijklmnopqrstuvwxyzABCDEFGHIJKLMNOPQRSTUVWXYZ";
@@ -342,7 +341,7 @@ fn generated(cfg: &RunCfg) -> Outcome {
     }
     let mut cases = 0u64;
     for end_at in ends {
-        let end = if gen::ratio(1, 3) { StreamEnd::Error(gen::pick(&[ErrorKind::ConnectionReset, ErrorKind::TimedOut, ErrorKind::Interrupted])) } else { StreamEnd::Eof };
+        let end = if gen::ratio(1, 3) { StreamEnd::Error(gen::read_error_kind()) } else { StreamEnd::Eof };
         if matches!(end, StreamEnd::Error(_)) {
             gen::count("fault.read_error_at_offset");
         } else if end_at < input.len() {
